@@ -95,6 +95,11 @@ class Run(object):
         self.depth = 0
         for t in range(1, self.ntasks + 1):
             self.fns[t] = self._make_fn(t)
+        self.dfns = {}
+        for tdef in prog["tasks"]:
+            d = tdef.get("dedup")
+            if d and d["fn"] not in self.dfns:
+                self.dfns[d["fn"]] = self._make_dedup_fn(d["fn"])
 
     # -- recording -------------------------------------------------------------------------------
     def emit(self, e, **kw):
@@ -201,6 +206,29 @@ class Run(object):
             self.register_task(u, obj, by)
         return obj
 
+    @staticmethod
+    def spelling(d):
+        """the same key, written in different ways (positional / keyword / default): dfn(a, b=0)"""
+        k, sp = d["key"], d.get("spell", 0)
+        if sp == 0:
+            return (k,), {}
+        if sp == 1:
+            return (k, 0), {}
+        if sp == 2:
+            return (), {"a": k}
+        return (k,), {"b": 0}
+
+    def dedup_call(self, t, u):
+        d = self.prog["tasks"][u - 1]["dedup"]
+        args, kwargs = self.spelling(d)
+        obj = self.dfns[d["fn"]].asynq(*args, **kwargs)
+        w = self.obj_id.get(id(obj))
+        if w is None:
+            self.register_task(u, obj, t)
+            w = u
+        self.emit("DedupCall", t=t, a=u, b=w)
+        return obj, w
+
     def build(self, t, k, s, pos):
         """Evaluate a Struct left to right.  Returns (python object, resolved struct).  pos: [int]
         running leaf counter."""
@@ -227,6 +255,10 @@ class Run(object):
             obj = self.get_task(u, t)
             self.last_struct[t].append((u, obj))
             return obj, V("F", u)
+        if g == "D":
+            obj, w = self.dedup_call(t, s["n"])
+            self.last_struct[t].append((w, obj))
+            return obj, V("F", w)
         fid = fid_of(t, k, p)
         if g == "I":
             obj = VItem(self, s["n"], fid, t)
@@ -283,13 +315,35 @@ class Run(object):
         return [self.svars[i].get() for i in range(1, n + 1)] + [getattr(self.attrobj, "a%d" % i) for i in range(1, n + 1)]
 
     # -- task bodies -----------------------------------------------------------------------------
+    def _make_dedup_fn(self, g):
+        from asynq.tools import deduplicate
+        run = self
+
+        @deduplicate()
+        @asynq.asynq()
+        def dfn(a, b=0):
+            me = _sched.get_active_task()
+            t = run.obj_id[id(me)]
+            return (yield from run._interp(t))
+
+        dfn.__name__ = "dfn%d" % g
+        return dfn
+
     def _make_fn(self, t):
         run = self
-        tdef = self.prog["tasks"][t - 1]
-        segs = tdef["segs"]
 
         @asynq.asynq()
         def body():
+            return (yield from run._interp(t))
+
+        body.__name__ = "task%d" % t
+        return body
+
+    def _interp(self, t):
+        run = self
+        tdef = self.prog["tasks"][t - 1]
+        segs = tdef["segs"]
+        if True:
             me = _sched.get_active_task()
             if t not in run.task_obj and me is not None:
                 run.register_task(t, me, 0)      # created by a plain synchronous call fn()
@@ -324,7 +378,10 @@ class Run(object):
                             elif o == "spawn":
                                 run.get_task(op["a"], t)
                             elif o == "dirty":
-                                pass
+                                d = run.prog["tasks"][op["a"] - 1]["dedup"]
+                                args, kwargs = run.spelling(d)
+                                run.dfns[d["fn"]].dirty(*args, **kwargs)
+                                run.emit("Dirty", t=t, a=op["a"])
                             else:
                                 raise ValueError(o)
                       except BaseException:
@@ -379,9 +436,6 @@ class Run(object):
                 if err is e:
                     raise
                 raise err
-
-        body.__name__ = "task%d" % t
-        return body
 
     def sync_call(self, t, u):
         """synchronous call of task u from inside task t's body (re-entrant wait_for)"""
